@@ -680,10 +680,12 @@ def tasks(tier):
                 [("histories-%d" % k, task_histories, dict(n=200)) for k in range(3)] +
                 [("long-%d" % k, task_long, dict(n=60)) for k in range(2)] +
                 [("series", task_series, dict(n=150))])
-    return ([("multisets-%d" % k, task_multisets, dict(n=10000)) for k in range(12)] +
-            [("histories-%d" % k, task_histories, dict(n=4000, steps=12 + 4 * k)) for k in range(4)] +
-            [("long-%d" % k, task_long, dict(n=1500)) for k in range(2)] +
-            [("series", task_series, dict(n=4000))])
+    # coverage-guided tier (pbt/fuzz.py): libFuzzer drives the strategies and oracles of these tasks
+    from .. import fuzz
+    return fuzz.extend([("multisets-%d" % k, task_multisets, dict(n=10000)) for k in range(12)] +
+                       [("histories-%d" % k, task_histories, dict(n=4000, steps=12 + 4 * k)) for k in range(4)] +
+                       [("long-%d" % k, task_long, dict(n=1500)) for k in range(2)] +
+                       [("series", task_series, dict(n=4000))], PROPERTY, ['multisets-0'])
 
 
 def replay(ctx, case):
